@@ -341,7 +341,9 @@ package generator
 //@   shape t.Ref = "" | "#/$defs/X"
 //@   shape t.Type = strs() | strs(string) | strs(integer) | strs(array) | strs(object) | strs(array,null) | strs(null,array) | strs(null,string) | strs(string,integer)
 //@   shape t.Items = nil | new
-//@   assigns nothing
+//@   shape t.Format = "" | "date-time"
+//@   assigns *g.output.file
+//@   ensures [C01] format-types-bring-their-import: t.Enum == nil && t.Ref == "" && contains_str(t.Type, "string") && !contains_str(t.Type, "integer") && t.Format == "date-time" && !t.subSchemaTypeElem && result1 == nil ==> imports_have(g.output.file.Package.Imports, "time")
 //@   ensures [C18,C08] empty-enum-fails: t.Enum != nil && len(t.Enum) == 0 ==> result1 != nil
 //@   ensures [C07,C03,C02] array-arm: t.Enum == nil && t.Ref == "" && len(t.Type) >= 1 && (t.Type[0] == "array" || (len(t.Type) == 2 && t.Type[0] == "null" && t.Type[1] == "array")) && result1 == nil
 //@       ==> dyn(result0) == "*codegen.ArrayType"
@@ -661,9 +663,9 @@ package generator
 //@   shape t.Enum = nil | enumvals(string)
 //@   shape t.Ref = "" | "#/$defs/X"
 //@   shape t.Format = "" | "date" | "date-time" | "ipv4"
-//@   shape t.Type = strs() | strs(string) | strs(array) | strs(object) | strs(integer,null)
+//@   shape t.Type = strs() | strs(string) | strs(array) | strs(object) | strs(integer,null) | strs(string,null) | strs(null,string)
 //@   shape t.Items = nil | new
-//@   ensures [C01] format-types-bring-their-import: t.Enum == nil && t.Ref == "" && len(t.Type) == 1 && t.Type[0] == "string" && result1 == nil ==> (t.Format == "date" ==> imports_have(g.output.file.Package.Imports, "github.com/atombender/go-jsonschema/pkg/types")) && (t.Format == "date-time" ==> imports_have(g.output.file.Package.Imports, "time")) && (t.Format == "ipv4" ==> imports_have(g.output.file.Package.Imports, "net/netip"))
+//@   ensures [C01] format-types-bring-their-import: t.Enum == nil && t.Ref == "" && contains_str(t.Type, "string") && result1 == nil ==> (t.Format == "date" ==> imports_have(g.output.file.Package.Imports, "github.com/atombender/go-jsonschema/pkg/types")) && (t.Format == "date-time" ==> imports_have(g.output.file.Package.Imports, "time")) && (t.Format == "ipv4" ==> imports_have(g.output.file.Package.Imports, "net/netip"))
 //@   ensures [C08] enum-children-become-enum-types: t.Enum != nil && result1 == nil ==> result0 == call_result("(*schemaGenerator).generateEnumType", 0)
 //@   ensures [C10] refs-are-followed: t.Enum == nil && t.Ref != "" && result1 == nil ==> result0 == call_result("(*schemaGenerator).generateReferencedType", 0)
 //@   ensures [C07,C03] array-arm: t.Enum == nil && t.Ref == "" && len(t.Type) == 1 && t.Type[0] == "array" && result1 == nil ==> dyn(result0) == "codegen.ArrayType" && t.Items != nil
